@@ -558,7 +558,7 @@ def interleaved_generators(ctx, rng):
         sess.call('connect')
         out = dict(a=None, b=None, cancelled_at=None)
         d = sess.device
-        d._local_id_lock, d._io_manager._transport_lock, d._io_manager._store_lock = asyncio.Lock(), asyncio.Lock(), asyncio.Lock()     # two tasks: real locks
+        env.set_locks(d, asyncio.Lock)     # two tasks: real locks
 
         async def main():
             async def A():
